@@ -757,3 +757,20 @@ class ConcreteCtx:
 
     def decide(self, term):
         raise RuntimeError("symbolic decision during concrete replay")
+
+
+class SamplingCtx(ConcreteCtx):
+    """Native fallback when a path is out of the proxies' reach: fresh symbols take values from a small pool
+    (with zeros, signs and repeats so that value-dependent branches such as ub == 0 or lb == ub are hit)."""
+
+    POOL = (-3.0, -2.0, -1.0, -0.5, 0.0, 0.0, 0.5, 1.0, 2.0, 3.0)
+
+    def __init__(self, rng):
+        super().__init__({})
+        self.rng = rng
+        self.chosen = {}
+
+    def _get(self, name):
+        v = self.rng.choice(self.POOL)
+        self.chosen[name] = v
+        return v
